@@ -169,6 +169,10 @@ def _get_natural_f(knots: numpy.ndarray) -> numpy.ndarray:
     """
     from scipy import linalg
 
+    if knots.size == 2:
+        # A straight line: there are no interior second derivatives to solve for.
+        return numpy.zeros((2, 2))
+
     h = knots[1:] - knots[:-1]
     diag = (h[:-1] + h[1:]) / 3.0
     ul_diag = h[1:-1] / 6.0
